@@ -148,7 +148,8 @@ class Gen(object):
         opaque = r.choice([None, None, material.OPAQUE_MODE.A_ONE, material.OPAQUE_MODE.RGB_ZERO])
         if kw.get('transparent') is None:
             opaque = None   # COLLADA stores the opaque mode on <transparent>; without it there is nothing to write
-        return material.Effect(self.uid('fx'), params, shading, double_sided=r.random() < 0.3, opaque_mode=opaque, **kw)
+        bump = material.Map(r.choice(samplers), r.choice(['BUMPUV', 'TEX0'])) if samplers and r.random() < 0.3 else None
+        return material.Effect(self.uid('fx'), params, shading, bumpmap=bump, double_sided=r.random() < 0.3, opaque_mode=opaque, **kw)
 
     def light(self):
         from collada import light
